@@ -6,13 +6,48 @@ package multiboot
 import (
 	"bytes"
 	"fmt"
+	"os"
 	"runtime"
 	"runtime/debug"
 	"sort"
+	"sync/atomic"
 	"syscall"
 	"testing"
+	"time"
 	"unsafe"
 )
+
+// Watchdog: findTagByType has no loop bound, so a decoder that does not return (although the
+// harness's own bounded walk predicted termination) cannot be interrupted; a second goroutine
+// then reports the case and ends the process.
+var (
+	verifDeadline atomic.Int64 // unix nanoseconds, 0 = no decoder running
+	verifRunning  atomic.Value // string: what is running
+)
+
+func verifWatch(out *verifOut, caseID *atomic.Int64, wellFormed *atomic.Bool) {
+	for {
+		time.Sleep(50 * time.Millisecond)
+		d := verifDeadline.Load()
+		if d != 0 && time.Now().UnixNano() > d {
+			what, _ := verifRunning.Load().(string)
+			if wellFormed.Load() {
+				out.Mon(int(caseID.Load()), "c10:decoder-does-not-return", "%s did not return within 5s on a well-formed block", what)
+			} else {
+				out.Info("unpredicted-hang", "case %d: %s did not return within 5s on a malformed block although the bounded tag walk terminates", caseID.Load(), what)
+			}
+			out.Flush()
+			os.Exit(3)
+		}
+	}
+}
+
+func verifTimed(what string, f func()) {
+	verifRunning.Store(what)
+	verifDeadline.Store(time.Now().Add(5 * time.Second).UnixNano())
+	defer verifDeadline.Store(0)
+	f()
+}
 
 // Case / observation encoding: see coq/theories/Multiboot/Case.v.
 //
@@ -113,7 +148,8 @@ const (
 type verifRunawayT struct{}
 
 // verifGuard runs f, turning memory faults / visitor-cap panics into observation codes.
-func verifGuard(f func()) (code uint64, msg string) {
+func verifGuard(what string, f0 func()) (code uint64, msg string) {
+	f := func() { verifTimed(what, f0) }
 	defer func() {
 		if r := recover(); r != nil {
 			switch v := r.(type) {
@@ -284,9 +320,15 @@ func TestVerifC10(t *testing.T) {
 		}
 	}
 
+	var curCase atomic.Int64
+	var curWF atomic.Bool
+	go verifWatch(out, &curCase, &curWF)
+
 	for _, c := range verifReadCases() {
 		cur := &verifCur{n: c.nums}
 		kind, stop, base, npre := cur.Next(), cur.Next(), cur.Next(), cur.Next()
+		curCase.Store(int64(c.id))
+		curWF.Store(kind == 0)
 		blk := cur.List()
 		sbase, nspre := cur.Next(), cur.Next()
 		str := cur.List()
@@ -310,7 +352,7 @@ func TestVerifC10(t *testing.T) {
 		if !mem.verifWalk(info, uint32(tagMemoryMap)) {
 			codes[0] = verifHang
 		} else {
-			codes[0], msgs[0] = verifGuard(func() {
+			codes[0], msgs[0] = verifGuard("VisitMemRegions", func() {
 				calls := uint64(0)
 				VisitMemRegions(func(e *MemoryMapEntry) bool {
 					if calls >= verifVisitorCap {
@@ -332,7 +374,7 @@ func TestVerifC10(t *testing.T) {
 		if !mem.verifWalk(info, uint32(tagFramebufferInfo)) {
 			codes[1] = verifHang
 		} else {
-			codes[1], msgs[1] = verifGuard(func() {
+			codes[1], msgs[1] = verifGuard("GetFramebufferInfo", func() {
 				p := GetFramebufferInfo()
 				if p == nil {
 					return
@@ -364,7 +406,7 @@ func TestVerifC10(t *testing.T) {
 			codes[2] = verifHang
 		} else {
 			cmdLineKV = nil
-			codes[2], msgs[2] = verifGuard(func() { kv = GetBootCmdLine() })
+			codes[2], msgs[2] = verifGuard("GetBootCmdLine", func() { kv = GetBootCmdLine() })
 		}
 		if codes[2] != verifOK {
 			obs = append(obs, codes[2], 0)
@@ -391,7 +433,7 @@ func TestVerifC10(t *testing.T) {
 		if !mem.verifWalk(info, uint32(tagElfSymbols)) {
 			codes[3] = verifHang
 		} else {
-			codes[3], msgs[3] = verifGuard(func() {
+			codes[3], msgs[3] = verifGuard("VisitElfSections", func() {
 				VisitElfSections(func(name string, flags ElfSectionFlag, address uintptr, size uint64) {
 					secs = append(secs, verifSection{string(append([]byte(nil), name...)), uint64(flags), uint64(address), size})
 				})
